@@ -388,7 +388,16 @@ class Interp:
                 try:
                     self._globals[gk] = self.lift(self.P.fold(r[1], r[2]))
                 except ValueError:
-                    self._globals[gk] = Unknown(f"global:{name}")
+                    expr = r[2]
+                    simple = all(isinstance(n, (ast.Tuple, ast.List, ast.Name, ast.Load, ast.Constant, ast.Attribute, ast.Set, ast.Dict))
+                                 for n in ast.walk(expr))
+                    if simple:
+                        try:
+                            self._globals[gk] = self.ev_in_module(r[1], expr)
+                        except (Unsupported, Raised):
+                            self._globals[gk] = Unknown(f"global:{name}")
+                    else:
+                        self._globals[gk] = Unknown(f"global:{name}")
             return self._globals[gk]
         if isinstance(r, tuple) and r[0] == "module":
             return Unknown(f"module:{r[1].name}")
